@@ -45,10 +45,14 @@ def find(prog, name):
 
 
 def find_choice(prog, cid):
+    """The definition of the choice that carries its prompt (a named choice may be defined in several places)."""
+    first = None
     for e in ktree.walk(prog):
         if e["k"] == "choice" and e["id"] == cid:
-            return e
-    return None
+            if e["prompt"]:
+                return e
+            first = first or e
+    return first
 
 
 LIT = {"int": "7", "hex": "0x7", "string": "added", "float": "7.5"}
@@ -111,7 +115,7 @@ def variants(item, rng, limit):
                 ea["sets" if kind == "set" else "wsets"].append({"t": b, "v": ["c", LIT[tb]], "c": Y, "str": tb == "string"})
             elif kind == "choice-prompt":
                 ch = find_choice(p, info[b]["choice"])
-                ch["prompt"] = [andc(ch["prompt"][0], ca)]
+                ch["prompt"] = [andc(ch["prompt"][0], ca)] if ch["prompt"] else [ca]
             elif kind == "choice-default":
                 ch = find_choice(p, info[b]["choice"])
                 ch["defaults"].insert(0, {"m": b, "c": ca})
